@@ -30,7 +30,26 @@ def rng_for(seed: int, stream: str = "") -> random.Random:
 
 
 def jdump(obj) -> str:
-    return json.dumps(obj, sort_keys=True, separators=(",", ":"), ensure_ascii=True)
+    try:
+        return json.dumps(obj, sort_keys=True, separators=(",", ":"), ensure_ascii=True)
+    except RecursionError:
+        # the C encoder has its own nesting limit; very deep values (C07) take the slow road
+        import sys
+
+        old = sys.getrecursionlimit()
+        sys.setrecursionlimit(max(old, 400_000))
+        try:
+            return _pydump(obj)
+        finally:
+            sys.setrecursionlimit(old)
+
+
+def _pydump(obj) -> str:
+    if isinstance(obj, dict):
+        return "{" + ",".join([json.dumps(str(k)) + ":" + _pydump(obj[k]) for k in sorted(obj, key=str)]) + "}"
+    if isinstance(obj, (list, tuple)):
+        return "[" + ",".join([_pydump(x) for x in obj]) + "]"
+    return json.dumps(obj, ensure_ascii=True)
 
 
 def digest(obj) -> str:
